@@ -342,6 +342,72 @@ func TestRandomPrograms(t *testing.T) {
 	})
 }
 
+// TestLoopScopeTableV2: a name first assigned inside a loop body belongs to that pass: reading it in a later pass
+// before it is assigned again is a read of an undefined name (an error in v2), never the previous pass's value.
+func TestLoopScopeTableV2(t *testing.T) {
+	loops := []struct {
+		name string
+		mk   func(body []*gen.Node) []*gen.Node
+	}{
+		{"for-3", func(b []*gen.Node) []*gen.Node {
+			return []*gen.Node{gen.NFor(gen.NSet("i", i64(0)), gen.NBin("<", id("i"), i64(3)), gen.NSet("i", gen.NBin("+", id("i"), i64(1))), b)}
+		}},
+		{"for-cond-only", func(b []*gen.Node) []*gen.Node {
+			return []*gen.Node{gen.NSet("i", i64(-1)), gen.NFor(nil, gen.NBin("<", id("i"), i64(2)), nil, append([]*gen.Node{gen.NSet("i", gen.NBin("+", id("i"), i64(1)))}, b...))}
+		}},
+		{"for-bare-break", func(b []*gen.Node) []*gen.Node {
+			return []*gen.Node{gen.NSet("i", i64(-1)), gen.NFor(nil, nil, nil, append(append([]*gen.Node{gen.NSet("i", gen.NBin("+", id("i"), i64(1)))}, b...), gen.NIf([]*gen.Node{gen.NBin(">=", id("i"), i64(2))}, [][]*gen.Node{{gen.NBreak()}}, nil, false)))}
+		}},
+		{"for-in-list", func(b []*gen.Node) []*gen.Node {
+			return []*gen.Node{gen.NForIn("i", gen.NList(i64(0), i64(1), i64(2)), b)}
+		}},
+		{"for-in-string", func(b []*gen.Node) []*gen.Node {
+			return []*gen.Node{gen.NSet("i", i64(-1)), gen.NForIn("ch", str("abc"), append([]*gen.Node{gen.NSet("i", gen.NBin("+", id("i"), i64(1)))}, b...))}
+		}},
+		{"nested-inner", func(b []*gen.Node) []*gen.Node {
+			return []*gen.Node{gen.NForIn("o", gen.NList(i64(7)), []*gen.Node{gen.NFor(gen.NSet("i", i64(0)), gen.NBin("<", id("i"), i64(3)), gen.NSet("i", gen.NBin("+", id("i"), i64(1))), b)})}
+		}},
+	}
+	assigns := []struct {
+		name string
+		mk   func() []*gen.Node
+	}{
+		{"plain", func() []*gen.Node { return []*gen.Node{gen.NSet("loc", gen.NBin("*", id("i"), i64(10)))} }},
+		{"multi", func() []*gen.Node {
+			return []*gen.Node{gen.NAssign("=", []*gen.Node{id("loc"), id("loc2")}, []*gen.Node{gen.NBin("*", id("i"), i64(10)), i64(1)})}
+		}},
+		{"in-if", func() []*gen.Node {
+			return []*gen.Node{gen.NIf([]*gen.Node{gen.NBool(true)}, [][]*gen.Node{{gen.NSet("loc", i64(5)), gen.NCall("probe", str("inner"), id("loc"))}}, nil, false), gen.NSet("loc", i64(6))}
+		}},
+		{"from-call", func() []*gen.Node { return []*gen.Node{gen.NSet("loc", gen.NCall("pval", id("i")))} }},
+	}
+	n := 0
+	for _, lp := range loops {
+		for _, as := range assigns {
+			for readAt := 1; readAt <= 2; readAt++ {
+				for esc := 0; esc < 3; esc++ {
+					// pass 0 assigns; pass readAt reads before assigning; esc: how passes between end (normal / continue right after the assignment / continue before it in pass 1)
+					body := []*gen.Node{gen.NCall("probe", str("pass"), id("i")),
+						gen.NIf([]*gen.Node{gen.NBin("==", id("i"), i64(int64(readAt)))}, [][]*gen.Node{{gen.NCall("probe", str("stale?"), id("loc"))}}, nil, false)}
+					if esc == 2 {
+						body = append(body, gen.NIf([]*gen.Node{gen.NBin("==", id("i"), i64(1))}, [][]*gen.Node{{gen.NContinue()}}, nil, false))
+					}
+					body = append(body, as.mk()...)
+					body = append(body, gen.NCall("probe", str("assigned"), id("loc")))
+					if esc == 1 {
+						body = append(body, gen.NContinue())
+					}
+					prog := append(lp.mk(body), gen.NCall("probe", str("done")))
+					c := sem.NewCase(gen.FixAll(prog))
+					judge(t, "loop-scope", c, fmt.Sprintf("loopscope/%s/%s/%d/%d", lp.name, as.name, readAt, esc), true, "loop-scope-v2")
+					n++
+				}
+			}
+		}
+	}
+	evid.Exhaustive("v2 loop kinds x assignment forms x pass that reads x how passes end: body-local name read in a later pass", n)
+}
+
 func TestFixedDialect(t *testing.T) {
 	cases := [][]*gen.Node{
 		{gen.NCall("probe", str("x"), id("undefined_name"))},
